@@ -339,7 +339,7 @@ def default_key(e):
 def sample_of(e):
     s = {'event': e.get('e'), 'i': e.get('i')}
     if 'lines' in e:
-        s['lines'] = [bytes(l).decode('latin1') for l in e['lines'][:4]]
+        s['lines'] = [''.join(chr(c) for c in l)[:200] for l in e['lines'][:4]]
     if 'ch' in e:
         s['changed'] = [c['a'] for c in e['ch']]
     if 'tag' in e:
